@@ -141,6 +141,7 @@ pub async fn collect_messages(s: &Socket, idle: Duration, hard: Duration, strip_
 pub async fn scenario(line: &str) -> String {
   let p: Vec<&str> = line.split(' ').collect();
   match p[0] {
+    "note" => "note".to_string(),
     "rawpeer" => rawpeer(&p).await,
     "slowdrip" => slowdrip(&p).await,
     _ => "bad-op".to_string(),
@@ -258,7 +259,7 @@ async fn rawpeer(p: &[&str]) -> String {
   drain.abort();
   let _ = tokio::time::timeout(Duration::from_secs(5), sock.close()).await;
   let _ = tokio::time::timeout(Duration::from_secs(5), ctx.term()).await;
-  format!("recv=[{}] hs={}", msgs.join(" "), hs)
+  format!("recv=[{}] hs={}", msgs.join(" "), if hs == "ok" { "ok" } else { "no" })
 }
 
 /// `slowdrip <cfg> <interval_ms> <bytes>`
